@@ -191,6 +191,10 @@ fn process_dir(
                 writeln!(&mut stderr(), "Error: {err}").unwrap();
             }
             Ok(entry) => {
+                // Entries recovered from walkdir errors (broken symlinks) bypass its depth filter.
+                if entry.depth() < config.min_depth {
+                    continue;
+                }
                 let mut matcher_io = matchers::MatcherIO::new(deps);
 
                 let new_dir = entry.path().parent().map(|x| x.to_path_buf());
